@@ -13,7 +13,7 @@ from vmc.oracles import aff, picture
 WRAPPERS = ["Transform", "Translate", "Scale", "ScaleAroundCenter", "ScaleUniform", "ScaleUniformAroundCenter",
             "Rotate", "RotateAroundCenter", "Skew", "SkewAroundCenter"]
 FILLS = ["solid", "solidA", "fg", "fgA", "linfg", "lin", "linrep", "linrefl", "rad", "radrep", "radrefl"]
-STRUCTURES = ["two_layers", "single", "nested", "colrglyph", "group", "composite_outline", "colrglyph_outer", "layers_outer", "group_outer"]
+STRUCTURES = ["two_layers", "single", "nested", "colrglyph", "group", "composite_outline", "colrglyph_outer", "layers_outer", "group_outer", "two_glyphs"]
 UNSUPPORTED = ["sweep", "composite_multiply", "composite_gradient_backdrop"]
 FG = (0.0, 0.0, 0.0, 1.0)
 
@@ -140,6 +140,11 @@ def graph(case):
         return {"base": {"Format": PF.PaintColrLayers, "Layers": [other, x]}}
     if st == "single":
         return {"base": x}
+    if st == "two_glyphs":
+        # a second colour glyph that uses the very same fill (each glyph's document has to define it itself), first in glyph order
+        # ("base") a glyph with another gradient followed by the shared one
+        return {"base": {"Format": PF.PaintColrLayers, "Layers": [glyph("T", fill("linrefl" if case["fill"] != "linrefl" else "lin")), x]},
+                "base2": {"Format": PF.PaintColrLayers, "Layers": [other, glyph("T", f)]}}
     if st == "nested":
         return {"base": {"Format": PF.PaintColrLayers, "Layers": [other, {"Format": PF.PaintColrLayers, "Layers": [x, glyph("T", solid(3, 0.7))]}]}}
     if st == "colrglyph":
@@ -199,6 +204,11 @@ def execute(case):
     finally:
         root.removeHandler(cap)
         alog.set_verbosity(old_v)
+    out = []
+    if version == 1 and not case.get("unsupported"):
+        # every other colour glyph of the font is converted in the same call: its document must stand on its own too
+        for other_name in sorted(n for n in svgs if n != "base"):
+            out += _compare_glyph(font, svgs, other_name, vb, glyph_region)
     text = svgs["base"].tostring()
     pic = ColrPicture(font, FG)
     try:
@@ -227,7 +237,6 @@ def execute(case):
                 return [ok("C13.unsupported-flagged", "warns")]
             return [bad("C13.unsupported-flagged", f"{unsupported}: converted without an error or a warning")]
         return [{"status": "harness-error", "clause": "harness.eval", "detail": f"reference evaluator: {e}"}]
-    out = []
     if unsupported:
         if st["bad"] and not cap.msgs:
             out.append(bad("C13.unsupported-flagged", f"{unsupported}: silently drawn differently ({st['bad']} of {st['valid']} probes), no warning"))
@@ -248,6 +257,32 @@ def execute(case):
     elif vars_:
         out.append(bad("C13.palette-variables", f"single-palette font but fills use var(--colorN): {sorted(vars_)}"))
     return out or [ok("C13.picture", f"{case.get('structure')}:{len(case.get('outer', []))}{len(case.get('inner', []))}:{case.get('fill')}")]
+
+
+def _compare_glyph(font, svgs, name, vb, glyph_region):
+    from vmc.oracles.colr_eval import ColrPicture
+    from vmc.oracles.svg_eval import SvgPicture
+
+    pic = ColrPicture(font, FG)
+    try:
+        sp = SvgPicture(svgs[name].tostring(), FG)
+    except Exception as e:
+        return [bad("C13.svg-wellformed", f"{name}: {e}")]
+    region = glyph_region(font, name)
+    V = vb or region
+    asc = -region.y
+    desc = -(region.h - asc)
+    adv = region.w
+    s = (asc - desc) / V.h
+    dx = (adv - s * V.w) / 2
+    probes = picture.lattice(-100, adv + 100, desc - 100, asc + 100, 24)
+    try:
+        st = picture.compare(lambda p: pic.at(name, p), lambda p: sp.at_doc(((p[0] - dx) / s + V.x, (asc - p[1]) / s + V.y)), probes, 2.0)
+    except KeyError as e:
+        return [bad("C13.picture", f"{name}: the document refers to {e}, which it does not define")]
+    if st["bad"]:
+        return [bad("C13.picture", f"{name}: {st['bad']} of {st['valid']} probes differ, worst {st['worst']}/255, e.g. {st['first'][:2]}")]
+    return []
 
 
 def _palette_indices(font):
